@@ -445,7 +445,7 @@ func checkC13(c *Ctx) {
 			rd.Check(facts.Has(fEvent("cur-reset")), callMethod.Name(), "CurDestIndex reset before the loop", loop.Pos(), "starts at 0", "CurDestIndex is not reset before the per-element loop")
 			// loop entered only when the whole-value attempt was not called
 			lf, _ := p.Guards(callMethod, nil).At(loopAnchor(loop))
-			rd.Check(lf.Has(fFalse("called")) || hasFactPrefix(lf, "F:called"), callMethod.Name(), "per-element dispatch only when the whole value has no hook", loop.Pos(), "!called", "the per-element loop also runs when the whole value already handled the hook: hooks fire twice")
+			rd.Check(localFact(callMethod, lf, false, loopAnchor(loop), defIsCallOfVar(fc)), callMethod.Name(), "per-element dispatch only when the whole value has no hook", loop.Pos(), "!called", "the per-element loop also runs when the whole value already handled the hook: hooks fire twice")
 		}
 	}
 
